@@ -297,6 +297,36 @@ def r13_1(c, R):
                 R.unrecognised(rid, "tail:%s-remainder" % LIST[s], "remainder appended through an adapter the rule does not know: " + H.render(arg), n["sp"])
                 continue
             tails[s].append((n, filt))
+        elif n.get("k") == "for" and id(n) not in step_regions:
+            # `for x in <remainder> { [if !other.contains(x)] { acc.push(x) } }`  ==  `acc.extend(<remainder>[.filter(..)])`
+            it = H.peel(n["iter"])
+            rr = H.recv_root(it)
+            s = list_side(rr[0]) if rr else None
+            lv = [i for i, _ in H.pat_bindings(n["pat"])]
+            if s is None or len(lv) != 1:
+                continue
+            chain, bad = it, False
+            while chain.get("k") == "mcall":
+                if chain["name"] not in ("cloned", "copied", "by_ref", "iter", "into_iter", "peekable"):
+                    bad = True
+                chain = H.peel(chain["recv"])
+            pushes = [x for x in H.walk(n["body"]) if x.get("k") == "mcall" and x["name"] == "push" and len(x["args"]) == 1
+                      and H.local_of(x["args"][0]) and H.local_of(x["args"][0])[0] == lv[0] and H.local_of(x["recv"])]
+            if bad or len(pushes) != 1:
+                R.unrecognised(rid, "tail:%s-remainder" % LIST[s], "loop over a remainder that is not `for x in rest { [if ..] acc.push(x) }`: " + H.render(n)[:120], n["sp"])
+                continue
+            accs.add(H.local_of(pushes[0]["recv"])[0])
+            filt = None
+            for kind, cond, pol in H.path_conditions(n["body"], pushes[0]):
+                inner, neg = H.negate_peel(cond) if kind in ("if", "after-exit") else (None, False)
+                inner = H.peel(inner) if inner is not None else {}
+                if inner.get("k") == "mcall" and inner["name"] == "contains" and len(inner["args"]) == 1 and H.local_of(inner["args"][0]) \
+                        and H.local_of(inner["args"][0])[0] == lv[0] and H.recv_root(inner["recv"]) and list_side(H.recv_root(inner["recv"])[0]) is not None:
+                    handled.add(id(inner))
+                    filt = (list_side(H.recv_root(inner["recv"])[0]), neg == bool(pol))
+                else:
+                    R.unrecognised(rid, "tail:%s-remainder" % LIST[s], "condition on a remainder element that is not a membership test: " + H.render(cond)[:100], n["sp"])
+            tails[s].append((n, filt))
     for s in (0, 1):
         R.inst(rid, "tail:%s-remainder:appended" % LIST[s], len(tails[s]) == 1, sp=fn["sp"],
                detail="what is left of the %s when the loop stops (exhausted or incompatible orders) must still reach the result" % LIST[s])
@@ -323,7 +353,8 @@ def r13_1(c, R):
 # ------------------------------------------------------------------------------------ R13.2
 class _SliceEv(T.Evaluator):
     """merge_slice presence table: `<map built from client|server>.get(k)` is Some(E_side) / None per cell;
-    calls of the closure parameters stay constructor-like terms."""
+    calls of the closure parameters stay constructor-like terms; `?` on such a call is transparent (the element it
+    yields on success); a local that is not bound yet is evaluated from its `let` initialiser (introduced locals)."""
 
     def __init__(self, body, pids, fnparams, present):
         super().__init__()
@@ -332,6 +363,27 @@ class _SliceEv(T.Evaluator):
         self.fnparams = fnparams
         self.present = present
         self.bad = []
+        self._resolving = set()
+
+    def ev(self, n, env):
+        k = n.get("k")
+        if k == "try":
+            v = self.ev(n["e"], env)
+            if v[0] == "v" and (v[1].startswith("call:") or v[1] == "if"):
+                return _strip_ok(v)
+            if v[0] == "v" and v[1] == "Ok":
+                return v[2][0] if v[2] else ("t", [])
+        if k == "path" and n["res"].get("r") == "local":
+            lid = n["res"]["id"]
+            if lid not in env and lid not in self._resolving and lid not in self.pids:
+                init = H.let_init_of(self.body, lid)
+                if init is not None:
+                    self._resolving.add(lid)
+                    try:
+                        env[lid] = self.ev(init, env)
+                    finally:
+                        self._resolving.discard(lid)
+        return super().ev(n, env)
 
     def call(self, n, c, args, env):
         if n.get("k") == "call" and (c or {}).get("r") == "local":
@@ -346,6 +398,33 @@ class _SliceEv(T.Evaluator):
                 return T.V("Some", T.sym("E_" + ("client", "server")[s])) if self.present[s] else T.V("None")
             self.bad.append(H.render(n))
         return super().call(n, c, args, env)
+
+
+def _strip_ok(v):
+    """The element a per-key decision yields, whether it is written `Ok(x)` / `f(..)` (collected as Result) or `x` / `f(..)?`."""
+    if v[0] == "v" and v[1] == "Ok" and len(v[2]) == 1:
+        return _strip_ok(v[2][0])
+    if v[0] == "v" and v[1] == "if" and len(v[2]) == 3:
+        return ("v", "if", [v[2][0], _strip_ok(v[2][1]), _strip_ok(v[2][2])])
+    return v
+
+
+def _lca(root, targets):
+    """Deepest node of `root` whose subtree contains every node of `targets` (identity)."""
+    chains = []
+    want = set(id(t) for t in targets)
+    for n, parents in H.walk_with_parents(root):
+        if id(n) in want:
+            chains.append(list(parents) + [n])
+    if len(chains) != len(want) or not chains:
+        return None
+    out = None
+    for level in zip(*chains):
+        if all(x is level[0] for x in level):
+            out = level[0]
+        else:
+            break
+    return out
 
 
 def r13_2(c, R, spec):
@@ -378,11 +457,9 @@ def _slice_table(c, R, rid):
     if not R.anchor(rid, "merge_slice parameters (client, server, get_key, side, inner)", len(pids) == 5 and sorted(fnparams.values()) == ["inner", "side"]
                     and _is_slice(ins[0]) and _is_slice(ins[1]), sp=fn["sp"]):
         return
-    # the per-key decision is the closure mapped over the merged key order
+    # the merged key order
     mpo = [n for n in H.walk(body) if n.get("k") == "call" and H.callee_name(n) == "merge_preserve_order"]
-    maps = [n for n in H.walk(body) if n.get("k") == "mcall" and n["name"] in ("map", "filter_map", "flat_map") and mpo
-            and _contains_node(n["recv"], mpo[0]) and H.peel(n["args"][0]).get("k") == "closure"]
-    if not R.anchor(rid, "merge_slice: `merge_preserve_order(..).map(|key| ..)`", len(mpo) == 1 and len(maps) >= 1, sp=fn["sp"]):
+    if not R.anchor(rid, "merge_slice: call of merge_preserve_order", len(mpo) == 1, sp=fn["sp"]):
         return
     sides = []
     for a in mpo[0]["args"]:
@@ -391,20 +468,26 @@ def _slice_table(c, R, rid):
         sides.append(pids.index(o) if o in pids[:2] else None)
     R.inst(rid, "slice:key-order-from-both-sides", sorted(x for x in sides if x is not None) == [0, 1], sp=mpo[0]["sp"], got=sides,
            detail="the merged key order must be computed from the client keys and the server keys")
-    cl = H.peel(maps[-1]["args"][0]) if len(maps) == 1 else H.peel(maps[0]["args"][0])
+    # the per-key decision: the smallest expression containing every call of the `side` / `inner` callbacks
+    # (a closure mapped over the key order, the body of a `for` loop, a `match`, an if-let chain ...)
+    cbs = [n for n in H.walk(body) if n.get("k") == "call" and (n.get("callee") or {}).get("r") == "local" and n["callee"]["id"] in fnparams]
+    dec = _lca(body, cbs) if len(cbs) >= 2 else None
+    if not R.anchor(rid, "merge_slice: per-key decision (expression containing the calls of `side` and `inner`)", dec is not None
+                    and dec.get("k") in ("match", "if", "block", "closure"), sp=fn["sp"]):
+        return
+    if dec.get("k") == "closure":
+        dec = dec["body"]
     E = {0: T.sym("E_client"), 1: T.sym("E_server")}
 
     def cell(pc, ps):
         ev = _SliceEv(body, pids, fnparams, (pc, ps))
-        env = {}
-        for p in cl["params"]:
-            for (i, nm) in H.pat_bindings(p):
-                env[i] = T.sym("KEY")
         try:
-            v = ev.ev(cl["body"], env)
+            v = ev.ev(dec, {})
         except T.Return as r:
             v = r.v
-        return v, ev.bad
+        except T.Break:
+            v = T.sym("<break>")
+        return _strip_ok(v), ev.bad
 
     def norm_both(v):
         """-> (value when equal, value when different) or None"""
@@ -417,19 +500,19 @@ def _slice_table(c, R, rid):
         return None
     v, bad = cell(True, True)
     nb = norm_both(v)
-    R.inst(rid, "slice:cell:both/equal", nb is not None and nb[0] in (T.V("Ok", E[0]), T.V("Ok", E[1])), sp=cl["sp"],
-           expect="Ok(<the shared element>.clone()) under the guard client == server", got=T.show(v),
+    R.inst(rid, "slice:cell:both/equal", nb is not None and nb[0] in (E[0], E[1]), sp=dec["sp"],
+           expect="<the shared element>.clone() under the guard client == server", got=T.show(v),
            detail="shared members are unmarked")
-    R.inst(rid, "slice:cell:both/different", nb is not None and nb[1] == T.V("call:inner", E[0], E[1]), sp=cl["sp"],
+    R.inst(rid, "slice:cell:both/different", nb is not None and nb[1] == T.V("call:inner", E[0], E[1]), sp=dec["sp"],
            expect="inner(client element, server element)", got=T.show(v))
     for (pc, ps, nm, s) in ((True, False, "client-only", 0), (False, True, "server-only", 1)):
         v, bad2 = cell(pc, ps)
         bad = bad + bad2
         want = T.V("call:side", E[s], T.V(("Client", "Server")[s]))
-        R.inst(rid, "slice:cell:%s" % nm, v == want, sp=cl["sp"], expect=T.show(want), got=T.show(v),
+        R.inst(rid, "slice:cell:%s" % nm, v == want, sp=dec["sp"], expect=T.show(want), got=T.show(v),
                detail="a member present on one side only is marked with that side")
     for b in sorted(set(bad)):
-        R.unrecognised(rid, "merge_slice", "lookup that is not rooted in the client/server parameter: " + b, cl["sp"])
+        R.unrecognised(rid, "merge_slice", "lookup that is not rooted in the client/server parameter: " + b, dec["sp"])
 
 
 def _name_atom_factory(name_ids):
@@ -460,6 +543,27 @@ def _and(fs):
     for f in fs:
         out = f if out is None else ("and", out, f)
     return out if out is not None else ("const", True)
+
+
+def _forwarders(c, seeds, need_side):
+    """Keys of `seeds` plus the functions of the module that (transitively) call one of them; with `need_side` only callers
+    that hand one of their own Side-typed parameters on (so that the Side constant at THEIR call site is the side marked)."""
+    out = set(seeds)
+    changed = True
+    while changed:
+        changed = False
+        for b in c.bodies:
+            if not _in_mod(b) or b["key"] in out or not isinstance(b.get("body"), dict) or b.get("inputs") is None:
+                continue
+            side_params = set(p for p, t in zip(H.param_ids(b), b["inputs"]) if (t or "") == SIDE_ADT) if len(H.param_ids(b)) == len(b["inputs"]) else set()
+            for x in H.walk(b["body"]):
+                if x.get("k") == "call" and (x.get("callee") or {}).get("key") in out:
+                    if need_side and not any(H.local_of(a) and H.local_of(a)[0] in side_params for a in x["args"]):
+                        continue
+                    out.add(b["key"])
+                    changed = True
+                    break
+    return out
 
 
 def _jar_table(c, R, rid, spec):
@@ -496,8 +600,16 @@ def _jar_table(c, R, rid, spec):
                expect="entry names of parameter #%d are tagged %s" % (i, v), got=[g[0] for g in got],
                detail="merge(client, server): the first jar is the client")
 
+    # ---- functions of the module that mark a class with a side / that lead to class_merger_merge
+    vs_fn = _find_fn(c, "visit_sided_annotation", lambda b: any("Side" in t for t in b["inputs"]) and "ClassFile" in (b.get("output") or ""))
+    marking = _forwarders(c, {vs_fn["key"]} if vs_fn else set(), need_side=True)
+    cmm_fn = _find_fn(c, "class_merger_merge", lambda b: len(b["inputs"]) == 2 and all(t.endswith("::ClassFile") for t in b["inputs"]))
+    merging = _forwarders(c, {cmm_fn["key"]} if cmm_fn else set(), need_side=False)
+
+    def _calls_any(n, keys):
+        return any(x.get("k") == "call" and (x.get("callee") or {}).get("key") in keys for x in H.walk(n))
     # ---- the per-entry loop
-    loops = [n for n in H.walk(body) if n.get("k") == "for" and any(x.get("k") == "call" and H.callee_name(x) == "class_merger_merge" for x in H.walk(n["body"]))]
+    loops = [n for n in H.walk(body) if n.get("k") == "for" and _calls_any(n["body"], merging)]
     if not R.anchor(rid, "merge: per-entry loop (contains the class_merger_merge call)", len(loops) == 1, sp=fn["sp"]):
         return
     loop = loops[0]
@@ -510,7 +622,7 @@ def _jar_table(c, R, rid, spec):
             for i, _ in H.pat_bindings(a["pat"]):
                 name_ids.add(i)
     comb = [n for n in H.walk(loop["body"]) if n.get("k") == "match" and "MergeCombination" in (n["scrut"].get("ty") or "")
-            and any(x.get("k") == "call" and H.callee_name(x) in ("visit_sided_annotation", "class_merger_merge") for x in H.walk(n))]
+            and _calls_any(n, marking | merging)]
     if not R.anchor(rid, "merge: `match merge_combination { Client, Server, Both }` producing the entry content", len(comb) == 1, sp=loop["sp"]):
         return
     comb = comb[0]
@@ -521,15 +633,15 @@ def _jar_table(c, R, rid, spec):
             arms[v[1]] = a
     if not R.anchor(rid, "merge: arms Client/Server/Both", sorted(arms) == ["Both", "Client", "Server"], sp=comb["sp"]):
         return
-    # ---- J2: class-level side annotation per arm
+    # ---- J2: class-level side annotation per arm (directly or through a private helper that forwards its Side parameter)
     for v in ("Client", "Server"):
-        calls = [x for x in H.walk(arms[v]["body"]) if x.get("k") == "call" and H.callee_name(x) == "visit_sided_annotation"]
+        calls = [x for x in H.walk(arms[v]["body"]) if x.get("k") == "call" and (x.get("callee") or {}).get("key") in marking]
         got = [_side_ctor(a) for x in calls for a in x["args"] if _side_ctor(a)]
         R.inst(rid, "jar:%s-only:class-marked-with-own-side" % v.lower(), len(calls) >= 1 and got == [v] * len(calls), sp=arms[v]["body"]["sp"],
                expect="visit_sided_annotation(class, Side::%s)" % v, got=got)
         handles = [jar_side(x["recv"]) for x in H.walk(arms[v]["body"]) if x.get("k") == "mcall" and x["name"] == "by_entry_key"]
         R.inst(rid, "jar:%s-only:entry-read-from-own-jar" % v.lower(), handles == [("Client", "Server").index(v)], sp=arms[v]["body"]["sp"], got=handles)
-    calls = [x for x in H.walk(arms["Both"]["body"]) if x.get("k") == "call" and H.callee_name(x) == "visit_sided_annotation"]
+    calls = [x for x in H.walk(arms["Both"]["body"]) if x.get("k") == "call" and (x.get("callee") or {}).get("key") in marking]
     R.inst(rid, "jar:both:class-not-side-marked", not calls, sp=arms["Both"]["body"]["sp"],
            detail="a class present in both jars carries no class-level side annotation")
 
@@ -687,35 +799,101 @@ def _jar_table(c, R, rid, spec):
                 R.inst(rid, key, ok and not H.diverges(a["body"]), sp=a["body"]["sp"], expect="Other(<data of the client or server entry>)",
                        got=[(s, names) for s, names in srcs])
             else:
-                _both_class(R, rid, a, bs, trace)
+                _both_class(R, rid, a, bs, trace, c)
 
 
-def _both_class(R, rid, a, bs, trace):
-    ifs = []
-    for n in H.walk(a["body"], into_closures=False):
-        if n.get("k") != "if" or "else" not in n:
+def _unwrap_value(v):
+    """Strip `Ok(..)` / `Class(..)` / `Some(..)` / `?` / refs around a value expression."""
+    while True:
+        v = H.peel(v, tries=True)
+        if v.get("k") == "call" and (H.ctor_of(v) or (None, None))[1] in ("Ok", "Class", "Some") and len(v["args"]) == 1:
+            v = v["args"][0]
             continue
-        cnd = H.peel(n["cond"], refs=False)
-        if cnd.get("k") == "bin" and cnd["op"] in ("==", "!="):
+        return v
+
+
+def _resolve_cmp(cond, scope):
+    """(comparison node, holds-when-cond-true?) for a condition that is `a == b` / `a != b`, possibly negated and possibly
+    held in a local bool (`let identical = a == b; ... if identical`)."""
+    inner, neg = H.negate_peel(cond)
+    for _ in range(4):
+        loc = H.local_of(inner) if H.peel(inner).get("k") == "path" else None
+        if not loc:
+            break
+        init = H.let_init_of(scope, loc[0])
+        if init is None:
+            return None
+        inner, n2 = H.negate_peel(init)
+        neg = neg != n2
+    inner = H.peel(inner, refs=False)
+    if inner.get("k") == "bin" and inner["op"] in ("==", "!="):
+        return inner, (inner["op"] == "==") != neg
+    return None
+
+
+def _returned(block):
+    """a diverging block `{ stmts; return X }` seen as the block computing X"""
+    b = H.peel(block, refs=False)
+    if b.get("k") == "block":
+        items = list(b["stmts"]) + ([b["tail"]] if "tail" in b else [])
+        if items:
+            last = H.peel(items[-1], refs=False)
+            if last.get("k") == "ret" and "e" in last:
+                return {"k": "block", "stmts": items[:-1], "tail": last["e"], "sp": b.get("sp")}
+    return block
+
+
+def _both_class(R, rid, a, bs, trace, c=None, depth=0):
+    """`a` = {"body": <code handling a class present in both jars>}, `bs` = binding id -> jar side."""
+    ifs = []
+    cands = []
+    for n in H.walk(a["body"], into_closures=False):
+        if n.get("k") == "if" and "else" in n:
+            cands.append(n)
+        elif n.get("k") == "block":
+            # `if c { ...; return X }  <rest>`  ==  `if c { .. } else { <rest> }`
+            for i, st in enumerate(n["stmts"]):
+                s0 = H.peel(st, refs=False)
+                if s0.get("k") == "if" and "else" not in s0 and H.diverges(s0["then"]):
+                    rest = {"k": "block", "stmts": n["stmts"][i + 1:], "sp": s0["sp"]}
+                    if "tail" in n:
+                        rest["tail"] = n["tail"]
+                    cands.append({"k": "if", "cond": s0["cond"], "then": _returned(s0["then"]), "else": rest, "sp": s0["sp"]})
+    for n in cands:
+        rc = _resolve_cmp(n["cond"], a["body"])
+        if rc:
+            cnd, eq_when_true = rc
             l = trace(cnd["l"], a, bs)
             r = trace(cnd["r"], a, bs)
             if sorted(x for x in (l[0], r[0]) if x is not None) == [0, 1] and "write" in l[1] and "write" in r[1]:
-                ifs.append((n, cnd["op"]))
+                ifs.append((n, eq_when_true))
+    if not ifs and c is not None and depth < 2:
+        # the case may be handled by a private helper of the module: follow the call, parameters inherit the jar sides
+        for x in H.walk(a["body"]):
+            if x.get("k") == "call" and ((x.get("callee") or {}).get("key") or "").startswith(MOD + "::") and H.callee_name(x) != "class_merger_merge":
+                helper = c.by_key.get(x["callee"]["key"])
+                if not helper or not isinstance(helper.get("body"), dict):
+                    continue
+                sides = [trace(arg, a, bs) for arg in x["args"]]
+                hp = [H.pat_bindings(p) for p in helper["params"]]
+                if sorted(sd[0] for sd in sides if sd[0] is not None) == [0, 1] and all(sd[1] == [] for sd in sides if sd[0] is not None) \
+                        and len(hp) == len(sides) and all(len(b) == 1 for b in hp):
+                    bs2 = {hp[i][0][0]: sides[i][0] for i in range(len(sides)) if sides[i][0] is not None}
+                    return _both_class(R, rid, {"body": helper["body"]}, bs2, trace, c, depth + 1)
     ok_if = len(ifs) == 1
     R.inst(rid, "both:cell:Class/Class:compares-written-bytes", ok_if, sp=a["body"]["sp"],
            expect="if client.write()? == server.write()? { pass through } else { merge }",
            detail="identical classes are recognised by comparing the bytes of both sides")
     if not ok_if:
         return
-    n, op = ifs[0]
-    eq_br, ne_br = (n["then"], n["else"]) if op == "==" else (n["else"], n["then"])
+    n, eq_when_true = ifs[0]
+    eq_br, ne_br = (n["then"], n["else"]) if eq_when_true else (n["else"], n["then"])
     reprs = [x for x in H.walk(eq_br) if x.get("k") == "mcall" and x["name"] == "into_class_repr"]
     heavy = [x for x in H.walk(eq_br) if x.get("k") in ("call", "mcall") and H.callee_name(x) in ("class_merger_merge", "read", "visit_sided_annotation", "read_class")]
-    v = H.peel(_value_of(eq_br))
-    okv = (H.ctor_of(v) or (None, None))[1] == "Class" and len(reprs) == 1 and v.get("k") == "call" and H.peel(v["args"][0]) is reprs[0] \
-        and trace(reprs[0]["recv"], a, bs)[0] in (0, 1) and trace(reprs[0]["recv"], a, bs)[1] == []
+    v = _unwrap_value(_value_of(eq_br))
+    okv = len(reprs) == 1 and v is reprs[0] and trace(reprs[0]["recv"], a, bs)[0] in (0, 1) and trace(reprs[0]["recv"], a, bs)[1] == []
     R.inst(rid, "both:cell:Class/Class:equal->byte-pass-through", okv and not heavy, sp=eq_br["sp"],
-           expect="Class(<the client's or server's entry itself>.into_class_repr()) without reading / merging / annotating it",
+           expect="<the client's or server's entry itself>.into_class_repr() without reading / merging / annotating it",
            got=H.render(v)[:160])
     merges = [x for x in H.walk(ne_br) if x.get("k") == "call" and H.callee_name(x) == "class_merger_merge"]
     okm = False
@@ -728,9 +906,15 @@ def _both_class(R, rid, a, bs, trace):
     R.inst(rid, "both:cell:Class/Class:different->class_merger_merge(client, server)", okm, sp=ne_br["sp"],
            expect="class_merger_merge(<client entry>.read()?, <server entry>.read()?)", got=got,
            detail="swapped arguments mark client-only members SERVER and vice versa")
-    v2 = H.peel(_value_of(ne_br))
-    R.inst(rid, "both:cell:Class/Class:different->parsed-result-kept", (H.ctor_of(v2) or (None, None))[1] == "Class" and
-           any(x.get("k") == "struct" and x.get("variant") == "Parsed" for x in H.walk(v2)), sp=ne_br["sp"], got=H.render(v2)[:120])
+    v2 = _unwrap_value(_value_of(ne_br))
+    okp = False
+    if len(merges) == 1 and v2.get("k") == "struct" and v2.get("variant") == "Parsed" and len(v2["fields"]) == 1:
+        fe = v2["fields"][0]["e"]
+        loc = H.local_of(fe)
+        src = H.let_init_of(ne_br, loc[0]) if loc else fe
+        okp = src is not None and any(x is merges[0] for x in H.walk(src))
+    R.inst(rid, "both:cell:Class/Class:different->parsed-result-kept", okp, sp=ne_br["sp"], got=H.render(v2)[:120],
+           expect="ClassRepr::Parsed { class: <result of class_merger_merge> }")
 
 
 def _annotation_shape(n):
